@@ -239,3 +239,75 @@ theorem resample_positions (c : Rat) (d : Nat) (f : Rat) (x : Rat) (hx : x ∈ r
   exact ⟨⟨k, by omega, rfl⟩, hle⟩
 
 end Ndcube.C19
+
+namespace Ndcube.C19
+open Ndcube
+
+/-! ### Meshed SkyCoord tables: the lazily composed slice is the slice of the slice -/
+
+/-- One `__getitem__` on a meshed component: reading the full table through the combined slice
+gives exactly the Python slice of what was read before, for every item (open, negative,
+over-long, empty), and the kept slice stays inside the table. -/
+theorem mesh_getitem_spec {α} (t : List α) (cur : Nat × Nat) (se : Option Int × Option Int)
+    (h : cur.2 ≤ t.length) :
+    lazyComponent t (meshGetitem cur se) = pySlice (lazyComponent t cur) se.1 se.2 ∧
+    (meshGetitem cur se).2 ≤ t.length := by
+  obtain ⟨c1, c2⟩ := cur
+  simp only at h
+  have hlen : (lazyComponent t (c1, c2)).length = c2 - c1 := by
+    simp only [lazyComponent, List.length_take, List.length_drop]; omega
+  have ha : (sliceBounds (c2 - c1) se.1 se.2).1 ≤ c2 - c1 := clampBound_le _ _ _ (Nat.zero_le _)
+  have hb : (sliceBounds (c2 - c1) se.1 se.2).2 ≤ c2 - c1 := clampBound_le _ _ _ (Nat.le_refl _)
+  obtain ⟨a, ha'⟩ : ∃ a, a = (sliceBounds (c2 - c1) se.1 se.2).1 := ⟨_, rfl⟩
+  obtain ⟨b, hb'⟩ : ∃ b, b = (sliceBounds (c2 - c1) se.1 se.2).2 := ⟨_, rfl⟩
+  constructor
+  · rw [← ha'] at ha; rw [← hb'] at hb
+    have hp : pySlice (lazyComponent t (c1, c2)) se.1 se.2
+        = ((lazyComponent t (c1, c2)).drop a).take (b - a) := by
+      simp only [pySlice, hlen, ← ha', ← hb']
+    rw [hp]
+    simp only [meshGetitem, combineBounds, lazyComponent, ← ha', ← hb']
+    rw [List.drop_take, List.take_take, List.drop_drop]
+    congr 1
+    omega
+  · simp only [meshGetitem, combineBounds]; omega
+
+/-- Any chain of slices of a fresh meshed component equals slicing the table step by step. -/
+theorem mesh_chain_spec {α} (t : List α) (items : List (Option Int × Option Int)) :
+    lazyComponent t (meshChain t.length items) = items.foldl (fun l se => pySlice l se.1 se.2) t := by
+  have key : ∀ (items : List (Option Int × Option Int)) (cur : Nat × Nat), cur.2 ≤ t.length →
+      lazyComponent t (items.foldl meshGetitem cur)
+        = items.foldl (fun l se => pySlice l se.1 se.2) (lazyComponent t cur) := by
+    intro items
+    induction items with
+    | nil => intro cur _; rfl
+    | cons se rest ih =>
+      intro cur h
+      have hs := mesh_getitem_spec t cur se h
+      simp only [List.foldl_cons]
+      rw [ih _ hs.2, hs.1]
+  have h0 : lazyComponent t (0, t.length) = t := by simp [lazyComponent]
+  have := key items (0, t.length) (Nat.le_refl _)
+  rw [h0] at this
+  exact this
+
+end Ndcube.C19
+
+namespace Ndcube.C19
+open Ndcube
+
+/-- `combineBounds` is astropy's `combine_slices` (the Item-level model used for re-sliced WCS) on
+explicit non-negative bounds; on the fresh coordinate's `slice(None)` the new item is kept as is. -/
+theorem combine_bounds_agrees (a1 b1 a2 b2 : Nat) :
+    combineSlices (.slice (some (a1 : Int)) (some (b1 : Int)) none) (.slice (some (a2 : Int)) (some (b2 : Int)) none)
+      = .ok (.slice (some (((combineBounds (a1, b1) (a2, b2)).1 : Nat) : Int))
+                    (some (((combineBounds (a1, b1) (a2, b2)).2 : Nat) : Int)) none) ∧
+    combineSlices (.slice none none none) (.slice (some (a2 : Int)) (some (b2 : Int)) none)
+      = .ok (.slice (some (a2 : Int)) (some (b2 : Int)) none) := by
+  constructor
+  · simp only [combineSlices, combineBounds, Option.isSome_none, Bool.false_eq_true, if_false]
+    congr 3
+    · omega
+  · simp [combineSlices]
+
+end Ndcube.C19
